@@ -169,8 +169,6 @@ class PropFnTr(AntFnTr):
                 return "(map (fun e_ : R => %s / e_) %s)" % (l, r), "listR"
             if tl == "sig" and tr == "R" and op == "Mult":
                 return "(sig_scale %s %s)" % (r, l), "sig"
-            if tl == "vec3" and tr == "listR3":
-                n2 = copy.copy(n)
         return super().e_BinOp(n)
 
     def ice_call(self, n, code, rname, meth, args):
